@@ -108,23 +108,21 @@ def normalise : Str → Nat → Str
       | some e => e.2 :: normalise cs (e.1.length - 1)
       | none => normalise cs 0
 
-/-- `strings.Replace(s, "  ", " ", -1)`: non-overlapping, left to right -/
-def collapsePairs : Str → Str
-  | 32 :: 32 :: rest => 32 :: collapsePairs rest
-  | c :: rest => c :: collapsePairs rest
-  | [] => []
+/-- `for strings.Contains(s, "  ") { s = strings.Replace(s, "  ", " ", -1) }`: every pass halves
+    the runs of spaces, the loop ends when every run is a single space -/
+def collapseGo : Bool → Str → Str
+  | _, [] => []
+  | afterSpace, c :: rest =>
+    if c = 32 then (if afterSpace then collapseGo true rest else 32 :: collapseGo true rest)
+    else c :: collapseGo false rest
+
+def collapseRuns (s : Str) : Str := collapseGo false s
 
 def trimSpaces (s : Str) : Str :=
   ((s.dropWhile (· == 32)).reverse.dropWhile (· == 32)).reverse
 
-/-- the replacement repeated while two spaces in a row remain: every run becomes one space -/
-def collapseRuns : Str → Str
-  | [] => []
-  | c :: rest => if c == 32 && rest.head? == some 32 then collapseRuns rest else c :: collapseRuns rest
-
-/-- `CleanSpace` on a string that contains no white space other than U+0020 (which is what the
-    normalisation leaves): the replacement is repeated until no two spaces are adjacent, as in
-    the code -/
+/-- `CleanSpace` (util.go, after the fix "CleanSpace collapses every run of spaces") on a string
+    that contains no white space other than U+0020 (which is what the normalisation leaves) -/
 def cleanSpace (s : Str) : Str := trimSpaces (collapseRuns s)
 
 def cleanName (s : Str) : Str := cleanSpace (normalise s 0)
